@@ -2,25 +2,26 @@
    Only statements, closed by [exact lemma], with Print Assumptions beneath. *)
 From Coq Require Import String List NArith ZArith Bool Permutation.
 From J5V.lib Require Import Outcome.
-From J5V.model Require Import ReflectDesc ReflectSchema Reflect ExportForm Export.
+From J5V.model Require Import ReflectDesc ReflectSchema Reflect ExportForm Export ExportApi.
 From J5V.gen Require ReflectGen.
-From J5V.proofs Require Import ReflectProofs ExportProofs ReflectInvProofs.
+From J5V.proofs Require Import ReflectProofs ExportProofs ReflectInvProofs ExportApiProofs.
 Import ListNotations.
 
 Definition entries_of (st : sset) : list (ref * root) :=
   flat_map (fun ke => match snd ke with Linked r => [(fst ke, r)] | Placeholder => [] end) st.
 
-(* The property at full strength: for EVERY descriptor set and selection of files, if reflection
-   succeeds with the set S then exporting S (to terms of the source form: list (ref * xroot)),
-   importing the export (back to the reader's objects) and exporting again gives exactly the first
-   export, with every reference resolved. *)
+(* The property at full strength: for EVERY descriptor set, list of packages the image names and order
+   in which the selected files are visited, if structure.APIFromImage succeeds with the API [api]
+   (packages and sub-packages holding terms of the source form) then PackageSetFromSourceAPI on it
+   succeeds, every schema of every package / sub-package is found again under the name it is filed
+   under and exports to exactly the same form, nothing else is in the rebuilt set and every reference
+   is resolved. *)
 Definition C15_full_statement : Prop :=
-  forall (D : desc) (fs : list filed) (S : sset),
-    reflect D fs = Ok S ->
-    exists X, export_set S = Ok X /\
-    exists S', import_api X = ROk S' /\
-      (forall k x, In (k, x) X -> exists r', lookup S' k = Some (Linked r') /\ export_root r' = x) /\
-      (forall k, ~ In k (map fst X) -> lookup S' k = None) /\
+  forall (D : desc) (W : list str) (fs : list filed) (api : xapi),
+    api_from_image D W fs = Ok api ->
+    exists S', import_packages api = ROk S' /\
+      (forall k x, In (k, x) (api_entries api) -> exists r', lookup S' k = Some (Linked r') /\ export_root r' = x) /\
+      (forall k, ~ In k (map fst (api_entries api)) -> lookup S' k = None) /\
       refs_resolved S' = true.
 
 (* ---- field by field: importing an exported field yields a field that exports to the same form;
@@ -75,9 +76,8 @@ Print Assumptions C15_roundtrip_partial.
    guarantees it) and the "_"-joined names of messages / enums / real oneofs pairwise distinct (a linked
    set does NOT guarantee it: the known name-collision finding). Nothing is assumed about property or
    JSON names. Every successful reflection then exports, re-imports and re-exports to exactly the same
-   form, every reference resolved. [export_set] models addSchemas only: the package bookkeeping of
-   APIFromImage (splitPackageParts errors on unversioned / deep package names) is outside the model
-   (correspondence only). *)
+   form, every reference resolved. This is the statement over the flat list of exported schemas
+   ([export_set]); C15_api_roundtrip below is the same through the package structure of the API. *)
 Theorem C15_reflected_roundtrip : forall D fs S,
   wf_keys D -> reflect D fs = Ok S ->
   exists X, export_set S = Ok X /\
@@ -87,6 +87,37 @@ Theorem C15_reflected_roundtrip : forall D fs S,
     refs_resolved S' = true.
 Proof. exact reflect_export_import_roundtrip. Qed.
 Print Assumptions C15_reflected_roundtrip.
+
+(* ---- the package bookkeeping of APIFromImage (getSchemaSet / getPackage / getSubPackage /
+   splitPackageParts) and the names PackageSetFromSourceAPI rebuilds ("%s.%s"): splitting a package
+   name and joining it again is the identity *)
+Theorem C15_split_then_join_is_identity : forall pkg id,
+  split_package pkg = ROk id -> bucket_name id = pkg.
+Proof. exact split_package_join. Qed.
+Print Assumptions C15_split_then_join_is_identity.
+
+(* filing exported schemas with distinct keys into packages / sub-packages and reading the API back
+   yields exactly those (key, schema) pairs, each once *)
+Theorem C15_routing_keeps_every_entry : forall W X api,
+  route_all (api_init W) X = ROk api -> NoDup (map fst X) -> Permutation (api_entries api) X.
+Proof. exact route_all_entries. Qed.
+Print Assumptions C15_routing_keeps_every_entry.
+
+(* ---- the full statement under the hypothesis wf_keys *)
+Theorem C15_api_roundtrip : forall D W fs api,
+  wf_keys D -> api_from_image D W fs = Ok api ->
+  exists S', import_packages api = ROk S' /\
+    (forall k x, In (k, x) (api_entries api) -> exists r', lookup S' k = Some (Linked r') /\ export_root r' = x) /\
+    (forall k, ~ In k (map fst (api_entries api)) -> lookup S' k = None) /\
+    refs_resolved S' = true.
+Proof. exact api_roundtrip. Qed.
+Print Assumptions C15_api_roundtrip.
+
+(* and APIFromImage does succeed on every successful reflection whose package names split *)
+Theorem C15_api_from_image_ok : forall D W fs S,
+  wf_keys D -> reflect D fs = Ok S -> packages_split S -> exists api, api_from_image D W fs = Ok api.
+Proof. exact api_from_image_ok. Qed.
+Print Assumptions C15_api_from_image_ok.
 
 (* ---- the generated copy tables carry, for every member of every composite literal of the export and
    import functions, the source text of its value; each is the member the model copies (Export.v
